@@ -88,7 +88,16 @@ static void lst_make_sequence(vp_rng_t* r, int mode, uint64_t idx, seq_t* s)
         case 4: name = "path-length-near-65535"; vssref_put_be(b + hdr + 12, 2, 65535 - (uint64_t)((idx >> 4) % 24)); break;   /* sums of header size and path size that wrap 16 bits */
         case 5: name = "value-length-lie"; n = build_valid(r, mode, tscf, b, amode & 1, 0x80 + (uint32_t)vp_rng_below(r, 12), 5, 65535, 7, 0); break;
         case 6: name = "truncate-any"; n = (size_t)vp_rng_below(r, n + 1); break;
-        case 7: name = "truncate-0-64"; n = (size_t)vp_rng_below(r, 65); break;
+        case 7: name = "truncate-0-64"; n = (size_t)vp_rng_below(r, 65);
+            if (idx & 64) {               /* a datagram that ends inside the static id or inside the float value, with length fields that say so */
+                name = "ends-inside-static-id-or-value";
+                n = build_valid(r, mode, tscf, b, 1, 9, 0, 0, (uint32_t)vp_rng_next(r), 0x3fc00000);
+                size_t keep = 12 + (size_t)vp_rng_below(r, 8);            /* 12..19 of the 20 message bytes */
+                n = hdr + keep;
+                if (tscf) Avtp_Tscf_SetStreamDataLength((Avtp_Tscf_t*)(b + (mode ? 4 : 0)), (uint16_t)keep); else Avtp_Ntscf_SetNtscfDataLength((Avtp_Ntscf_t*)(b + (mode ? 4 : 0)), (uint16_t)keep);
+                Avtp_Vss_SetField((Avtp_Vss_t*)(b + hdr), AVTP_VSS_FIELD_ACF_MSG_LENGTH, (keep + 3) / 4);
+            }
+            break;
         case 8: name = "empty-datagram"; n = 0; break;
         case 9: name = "random-bytes"; n = (size_t)vp_rng_below(r, 1601); vp_rng_fill(r, b, n);   /* up to 100 bytes more than any receive buffer holds */ b[hdr < n ? hdr : 0] = 0x84; break;
         case 10: name = "bit-flips"; mutate_bytes(r, b, n, 1 + (int)vp_rng_below(r, 5)); break;
